@@ -78,7 +78,11 @@ class FieldElement:
         # self.num**(p-1) % p == 1
         # you might want to use % operator on n
         prime = self.prime
-        num = pow(self.num, n % (prime - 1), prime)
+        if n >= 0:
+            # no exponent reduction: 0 ** (p - 1) is 0, not 0 ** 0
+            num = pow(self.num, n, prime)
+        else:
+            num = pow(self.num, n % (prime - 1), prime)
         return self.__class__(num, prime)
 
     def __truediv__(self, other):
